@@ -75,6 +75,15 @@ func extraConstructs() []construct {
 	}
 
 	// -----------------------------------------------------------------------
+	// cyclic structures that come into being during the JSON walk (toJSON / replacer / getter)
+	l = append(l, construct{id: "json-cyclic-toJSON", setup: vars("var jn = 0, jroot = {}; jroot.c = {toJSON: function(){ return jn++ < 1 ? jroot : 1; }};"),
+		text: "JSON.stringify(jroot)", native: true, class: "TypeError", group: "json"})
+	l = append(l, construct{id: "json-cyclic-replacer", setup: vars("var jn = 0;"),
+		text: "JSON.stringify({}, function(k, v){ return jn++ < 2 ? this : 1; })", native: true, class: "TypeError", group: "json"})
+	l = append(l, construct{id: "json-cyclic-getter", setup: segs(s("var jg = {}; "), c(`Object.defineProperty(jg, "g", {enumerable: true, get: function(){ return jg; }})`), s(";")),
+		text: "JSON.stringify([jg])", native: true, class: "TypeError", group: "json"})
+
+	// -----------------------------------------------------------------------
 	// early errors of eval / Function code that ES5 classifies as ReferenceError (11.13.1, 16)
 	l = append(l, construct{id: "eval-invalid-lhs", text: `eval("1 = 2")`, native: true, nativeOpt: true, class: "ReferenceError", group: "invalid-lhs"})
 	l = append(l, construct{id: "eval-invalid-lhs-call", text: `eval("nop() = 2")`, native: true, nativeOpt: true, class: "ReferenceError", group: "invalid-lhs-call"})
